@@ -157,7 +157,7 @@ func c08Run(is *isolator, c c08Case) (c08Result, string) {
 		var res c08Result
 		json.Unmarshal(r.Result, &res)
 		return res, res.Fail
-	case isoFlaky:
+	case isoFlaky, isoOOM:
 		return c08Result{}, ""
 	case isoTimeout:
 		return c08Result{}, "Compile/Parse/String/Eval did not return: " + r.Detail
